@@ -150,6 +150,9 @@ type AssocRec struct {
 	// EOFAfter: how long the Read call that ended in EOF had been waiting (0 = no EOF seen)
 	EOFAfter time.Duration
 	EOFAt    time.Duration
+	// PostClose: data returned by Read calls made after the handler closed the connection
+	PostClose [][]byte
+	Closed    bool
 }
 
 // UDPRec is a harness handler for UDP associations: reads datagrams (with a
@@ -167,6 +170,10 @@ type UDPRec struct {
 	SlowClient string
 	SlowFor    time.Duration
 	SlowNoRead bool
+	// CloseThenRead > 0: an association that stops after MaxReads closes its
+	// connection itself and then calls Read that many more times (a copy loop
+	// aborted from outside): what those reads return is recorded in PostClose.
+	CloseThenRead int
 }
 
 func (u *UDPRec) Handle(cx *layer4.Connection, _ layer4.Handler) error {
@@ -229,6 +236,24 @@ func (u *UDPRec) Handle(cx *layer4.Connection, _ layer4.Handler) error {
 		nr := len(rec.Reads)
 		ulk()
 		if u.MaxReads > 0 && nr >= u.MaxReads {
+			if u.CloseThenRead > 0 {
+				_ = cx.Close()
+				lk()
+				rec.Closed = true
+				ulk()
+				for i := 0; i < u.CloseThenRead; i++ {
+					n, err := cx.Read(buf)
+					if n > 0 {
+						d := append([]byte(nil), buf[:n]...)
+						lk()
+						rec.PostClose = append(rec.PostClose, d)
+						ulk()
+					}
+					if err != nil && n == 0 {
+						break
+					}
+				}
+			}
 			break
 		}
 	}
